@@ -65,6 +65,38 @@ def replay_file(data):
 UNITS = [DurationInInterval()]
 
 
+def crafted_start_effects():
+    """durative actions with SEVERAL start effects on one numeric fluent (every pair of increase / decrease, and a triple) whose accumulated
+    value is read afterwards: by an over-all condition, an end condition, and the value of an end effect"""
+    from unified_planning.shortcuts import (Problem, Fluent, IntType, BoolType, DurativeAction, StartTiming, EndTiming, ClosedTimeInterval,
+                                            GE, LE, Plus)
+    out = []
+    for kinds in (("dec", "dec"), ("inc", "dec"), ("dec", "inc"), ("inc", "inc"), ("inc", "dec", "dec")):
+        for init in (5, 6, 8):
+            for reader in ("overall", "end_condition", "end_effect_value"):
+                pr = Problem(f"start_effects_{'_'.join(kinds)}_{init}_{reader}")
+                fuel, copy, done = Fluent("fuel", IntType(-20, 40)), Fluent("copy", IntType(-20, 40)), Fluent("done", BoolType())
+                pr.add_fluent(fuel, default_initial_value=init)
+                pr.add_fluent(copy, default_initial_value=0)
+                pr.add_fluent(done, default_initial_value=False)
+                a = DurativeAction("burn")
+                a.set_fixed_duration(2)
+                for k, amount in zip(kinds, (3, 4, 2)):
+                    (a.add_increase_effect if k == "inc" else a.add_decrease_effect)(StartTiming(), fuel, amount)
+                if reader == "overall":
+                    a.add_condition(ClosedTimeInterval(StartTiming(), EndTiming()), GE(fuel, 0))
+                elif reader == "end_condition":
+                    a.add_condition(EndTiming(), GE(fuel, 0))
+                else:
+                    a.add_effect(EndTiming(), copy, Plus(fuel, 1))
+                    pr.add_goal(GE(copy, 0))
+                a.add_effect(EndTiming(), done, True)
+                pr.add_action(a)
+                pr.add_goal(done)
+                out.append(pr)
+    return out
+
+
 def bounded(tier, seed):
     import itertools
     from rtc.tgen import TGen
@@ -81,14 +113,18 @@ def bounded(tier, seed):
         warnings.simplefilter("ignore")
         tv = TimeTriggeredPlanValidator()
         comp = TimedToSequential()
-        for i in range(nprob):
-            s = (seed + 5) * 100003 + i
-            g = TGen(s, timed=False, fixed_durations=False, simple=True)
-            g.t2s = True
-            try:
-                pr = g.problem(f"t{s}")
-            except Exception:  # noqa
-                continue
+        def problem_stream():
+            for k, pr_ in enumerate(crafted_start_effects()):
+                yield 500000 + k, pr_
+            for i in range(nprob):
+                s_ = (seed + 5) * 100003 + i
+                g = TGen(s_, timed=False, fixed_durations=False, simple=True)
+                g.t2s = True
+                try:
+                    yield s_, g.problem(f"t{s_}")
+                except Exception:  # noqa
+                    continue
+        for s, pr in problem_stream():
             if not comp.supports(pr.kind):
                 continue
             try:
